@@ -81,7 +81,7 @@ def get_line_confidence(line, labels, aligned_letters=None, log_probs=None):
 
     if aligned_letters is None:
         aligned_letters = align_text(-log_probs, labels, log_probs.shape[1] - 1)
-    alignment = np.concatenate([aligned_letters, [1000]])
+    alignment = np.concatenate([aligned_letters, [max(1000, log_probs.shape[0])]])
 
     probs = np.exp(log_probs)
     last_border = 0
